@@ -26,7 +26,7 @@ def prims (bit : Bool) : Prims := { digest := fun _ _ => [], prim := fun _ _ _ _
 
 /-- the harness' (R, S) must be the model's whenever the model parses the signature octets as a pair -/
 def rsCheck (sig : Bytes) (R S : Option Int) : Option String :=
-  match Der.parseSigPair sig with
+  match DerSig.parseSigPair sig with
   | none => none
   | some p => if R = some p.r ∧ S = some p.s then none else some s!"rs-mismatch model={p.r},{p.s}"
 
